@@ -385,12 +385,65 @@ func runC15(c *eng.Ctx) {
 			c.R.Count(fmt.Sprintf("fault_kind_%d", kind), 1)
 			_ = fs
 		}
+		// a Build stopped by its context (cancelled from inside the first, a middle and the last
+		// constructor invocation of the Build): no panic, and a failed Build leaves no partial
+		// state - whatever it constructed has been disposed when it returns, because no provider
+		// is handed out that could ever dispose it
+		var buildRuns []int
+		for ri, run := range o.Runs {
+			if run.Op == 0 {
+				buildRuns = append(buildRuns, ri)
+			}
+		}
+		if nb := len(buildRuns); nb > 0 {
+			for _, pos := range dedupInts([]int{1, (nb + 1) / 2, nb}) {
+				cr2 := NewRun(s, m, nil, nil)
+				cr2.BuildCancelledAt(pos)
+				c.R.Count("build_cancellation_positions", 1)
+				var cfs []Finding
+				feat := "cancelled-inside-the-last-constructor-of-the-Build"
+				if pos < nb {
+					feat = "cancelled-inside-an-earlier-constructor-of-the-Build"
+				}
+				switch {
+				case cr2.BuildPanic != nil:
+					cfs = append(cfs, Finding{"api-call-panics", "build-cancelled", fmt.Sprintf("BuildWithContext cancelled inside constructor invocation %d of %d panicked: %v", pos, nb, cr2.BuildPanic)})
+				case cr2.Built:
+					cr2.Finish() // the cancellation came too late to matter: a normal provider
+				default:
+					co := Digest(cr2)
+					for _, x := range ownedDisposables(cr2, co) {
+						if n := len(co.Closes[x.id]); n != 1 {
+							cfs = append(cfs, Finding{"partial-state-after-failed-build", feat + fmt.Sprintf(":closed-%d-times", min(n, 2)), fmt.Sprintf("BuildWithContext cancelled inside constructor invocation %d of %d failed (%v) and returned no provider, but %s of %s, which it had constructed, was closed %d times", pos, nb, trimErr(cr2.BuildErr), co.InstName(x.id), m.Describe(x.reg), n)})
+							break
+						}
+					}
+				}
+				report(c, "C15", idx, cr2, cfs)
+			}
+		}
 		c.R.AddEnumerated(int64(positions), int64(positions))
 		if c.R.WantSample() && positions > 3 {
 			c.R.Sample(sampleOf(base, map[string]any{"kind": "fault-enumeration", "positions": positions}))
 		}
 		c.R.End(idx, eng.Hash("c15", s.Canon(), len(ops)), positions > 0)
 	}
+}
+
+func dedupInts(xs []int) []int {
+	var out []int
+	for _, x := range xs {
+		dup := false
+		for _, y := range out {
+			if x == y {
+				dup = true
+			}
+		}
+		if !dup && x > 0 {
+			out = append(out, x)
+		}
+	}
+	return out
 }
 
 // runFaulted replays ops under one fault; the failing op is checked and retried.
